@@ -17,6 +17,7 @@ ASSUME = [
     "precondition (checked, else skipped and counted): the project end is not extended in either run",
     "'wide9' family: bases = the two ten-task projects of mc/props/wide.py with every single toggle, alone and with reversed declaration order (thorough: every subset of <= 2 of the 38 toggles); intruder = priority 1, 30 min or 10 h, on each of r1-r4, declared first, in the middle or last; pairs where a task is unscheduled or ends after the declared 8-week window in either run are skipped and counted",
     "'inhprio' family: leaves with an own priority (500 written out, or 600) one or two levels below a container that hands down 100 / 200 / 450; the added task's priority (300 / 460) lies between the container's and the leaves' - still strictly the lowest among the tasks that do work",
+    "'msgate' family: every base task waits for a container of dated milestones (one or two of them, one or two levels deep); the added task (1 h / 8 h on either resource, declared first or last) is the only other candidate in the first scan",
     "'alapext' family (open finding D55): backward-anchored work + a 40 / 60 h lowest-priority task that fits the declared window but triggers the scheduler's window extension; no precondition is applied there",
     "in backward (ALAP) projects intruders that depend on a base task are not generated: there the added task is a successor whose start is its predecessor's deadline, which C04 requires to be honoured",
 ]
@@ -116,6 +117,28 @@ def inhprio_specs(it):
     return base, w
 
 
+def msgate(tier):
+    """Every base task waits - directly or through a successor - for a container that holds nothing but dated milestones (complete
+    before any work is placed): when the first scan starts, the added lowest-priority task is the only other candidate."""
+    for n_ms in (1, 2):
+        for depth in (1, 2):
+            for res in ("r1", "r2"):
+                for pos in ("first", "last"):
+                    for m in (60, 480):
+                        yield {"kind": "msgate", "n": n_ms, "depth": depth, "res": res, "pos": pos, "m": m}
+
+
+def msgate_specs(it):
+    ms = [{"id": f"k{i}", "milestone": True, "start": f"2025-01-06-{9 + i:02d}:00"} for i in range(it["n"])]
+    gate = {"id": "K", "children": ms if it["depth"] == 1 else [{"id": "inner", "children": ms}]}
+    base = {"dur": "3w", "resources": [{"id": "r1"}, {"id": "r2"}],
+            "tasks": [gate, {"id": "h", "effort": 360, "alloc": ["r1"], "prio": 900, "deps": ["K"]}, {"id": "after", "effort": 120, "alloc": ["r2"], "deps": ["h"]}]}
+    w = copy.deepcopy(base)
+    zz = {"id": "zz", "effort": it["m"], "alloc": [it["res"]], "prio": 1}
+    w["tasks"].insert(0 if it["pos"] == "first" else len(w["tasks"]), zz)
+    return base, w
+
+
 def alapext_specs(it):
     a = {"id": "a", "effort": it["a"] * 60, "alloc": ["r1"]}
     if not it["palap"]:
@@ -144,6 +167,8 @@ def specs(item):
         return alapext_specs(item)
     if item.get("kind") == "inhprio":
         return inhprio_specs(item)
+    if item.get("kind") == "msgate":
+        return msgate_specs(item)
     b = item["base"]
     base = c07.to_spec(b)
     base["alap"] = b["alap"]
@@ -209,7 +234,7 @@ def evaluate(item):
             if a != b:
                 v.append(("disturbed", f"{t['id']} (scenario {sc}): alone {a}, with lowest-priority task zz {b}"))
     zz = t2.get("zz") or t2.get("bg.zz")
-    if wide9 or item.get("kind") in ("alapext", "inhprio"):
+    if wide9 or item.get("kind") in ("alapext", "inhprio", "msgate"):
         r["v"] = common.dedup(v)
         r["nt"] = True   # every resource of the wide bases carries base work
         return r
@@ -255,6 +280,7 @@ def run(ctx):
     explore(ctx, wide.universe9(ctx.tier), "mc.props.c09:evaluate", st, payload=payload, sample_of=sample)
     explore(ctx, alapext(ctx.tier), "mc.props.c09:evaluate", st, payload=payload, sample_of=sample, trait=trait)
     explore(ctx, inhprio(ctx.tier), "mc.props.c09:evaluate", st, payload=payload, sample_of=sample)
+    explore(ctx, msgate(ctx.tier), "mc.props.c09:evaluate", st, payload=payload, sample_of=sample)
     common.vacuity_guard(ctx, st)
     cov = st.coverage(
         "all (base, intruder) pairs of the stated base universe x intruder alphabet, two real scheduler runs per pair; states = distinct "
